@@ -113,6 +113,7 @@ class Result:
     def __init__(self, ok, detail, model_line=None, impl=None, shape=None, kind='c', nontrivial=True, tag=None, extra=()):
         self.ok, self.detail = ok, detail
         self.extra = list(extra)      # non-blocking model-fidelity comparisons: (line, impl, shape, kind, label)
+        self.fidelity = []            # non-blocking observations about forward semantics
         self.model_line, self.impl, self.shape, self.kind = model_line, impl, shape, kind
         self.nontrivial, self.tag = nontrivial, tag
 
@@ -519,8 +520,9 @@ def run_activation(p):
     x = x.astype(float)
     line = f'act {p["kind"]} ' + rw([p['a'], p['x0'], p['y0'], x.reshape(-1)[0]])
     impl = np.array([node.forward(x).reshape(-1)[0], np.asarray(b).reshape(-1)[0]])
+    # the closed forms of the model are a fidelity note: what is judged is backprop = derivative of the node's own forward
     return Result(okc and unchanged, f'backprop vs central difference of forward: {det}; input left unchanged: {unchanged}',
-                  line, impl, (2,), 'r', tag=p['kind'])
+                  extra=[(line, impl, (2,), 'r', 'closed-form model of forward value and derivative')], tag=p['kind'])
 
 
 def run_sg(p):
@@ -545,8 +547,13 @@ def run_sg(p):
     vec = np.moveaxis(np.real(y), ax, 0).reshape(n, -1)[:, 0]
     got = np.moveaxis(np.real(By), ax, 0).reshape(n, -1)[:, 0] if By.shape == shp else np.real(By)
     line = f'sgbp {n} ' + rw(vec)
-    return Result(gap <= TOL_ADJ and fwd_ok, f'<y,Ax>={lhs:.12g} <By,x>={rhs:.12g} rel gap {gap:.3e}; forward is the interior difference: {det}',
-                  line, got, (n,), 'r', nontrivial=n >= 3, tag=f'{p["axis"]}/{"sq" if shp[0] == shp[1] else "nonsq"}')
+    res = Result(gap <= TOL_ADJ and np.shape(Ax) == shp and np.shape(By) == shp,
+                 f'<y,Ax>={lhs:.12g} <By,x>={rhs:.12g} rel gap {gap:.3e}; forward is the interior difference: {det}',
+                 extra=[(line, got, (n,), 'r', 'adjoint of the one-sided interior difference')], nontrivial=n >= 3,
+                 tag=f'{p["axis"]}/{"sq" if shp[0] == shp[1] else "nonsq"}')
+    if not fwd_ok:
+        res.fidelity.append('forward is not the one-sided interior difference out[i] = x[i+1] - x[i], 1 <= i <= n-2')
+    return res
 
 
 def run_cost(p):
@@ -578,8 +585,9 @@ def run_cost(p):
     bv = np.full(av.shape, b) if np.isscalar(b) else sel(b)
     line = f'{kind} {av.size} ' + rw(av) + ' ' + rw(bv)
     impl = np.concatenate([[c0], sel(g) if np.shape(g) == shp else np.ravel(g)])
-    return Result(ok, f'finite difference {fd:.10g}, <grad,delta> {an:.10g}', line, impl, (av.size + 1,), 'r',
-                  tag=f'{kind}/{"masked" if p["masked"] else "unmasked"}')
+    return Result(ok, f'finite difference {fd:.10g}, <grad,delta> {an:.10g}',
+                  extra=[(line, impl, (av.size + 1,), 'r', 'closed-form model of cost and gradient')],
+                  tag=f'{kind}/{"masked" if p["masked"] else "unmasked"}{"/scalar-yhat" if p.get("scalar_yhat") else ""}')
 
 
 def _ifn(shape, width=1.7):
@@ -758,7 +766,8 @@ def run_history(p):
             if not okc:
                 return fail(f'step {k}: backprop vs derivative of the live forward: {det}')
         line = f'act {node} ' + rw([nd.a, nd.x0, nd.y0, x.reshape(-1)[0]])
-        return Result(True, '; '.join(log), line, np.array([nd.forward(x).reshape(-1)[0], np.asarray(b).reshape(-1)[0]]), (2,), 'r', tag=node)
+        return Result(True, '; '.join(log), extra=[(line, np.array([nd.forward(x).reshape(-1)[0], np.asarray(b).reshape(-1)[0]]), (2,), 'r',
+                                                     'closed-form model of forward value and derivative')], tag=node)
 
     if node == 'wavefront':
         wf = P.Wavefront(_cplx(r, (3, 4)), 0.5, 1.0)
@@ -1100,6 +1109,7 @@ def correspondence(ctx):
     if ctx.widen:
         mult *= 2
     pending = []
+    fmsgs = {}
     for item in ITEMS:
         cases = list(gen_cases(ctx.rng, item, QUICK[item] * mult))
         if ctx.thorough or ctx.widen:     # plus the whole small-scope enumeration
@@ -1109,6 +1119,8 @@ def correspondence(ctx):
             ctx.case(item, p, nontrivial=res.nontrivial, tag=res.tag)
             if not res.ok:
                 ctx.pred_fail(item, p, res.detail)
+            for msg in res.fidelity:
+                fmsgs[(item, msg)] = fmsgs.get((item, msg), 0) + 1
             if res.model_line is not None:
                 pending.append((item, p, res.model_line, res.impl, res.shape, res.kind, 'backprop', True))
             for (ln, impl, shape, kind, label) in res.extra:
@@ -1132,6 +1144,8 @@ def correspondence(ctx):
             # the stand-alone model of the forward's semantics (Q formula, basis formula, DM lattice ...) no longer
             # describes the code.  That is not a statement about gradients: recorded, not an alarm.
             drift[(item, label)] = drift.get((item, label), 0) + 1
+    for (item, msg), k in sorted(fmsgs.items()):
+        ctx.notes.append(f'model fidelity: {item}: {msg} ({k} cases)')
     for (item, label), k in sorted(drift.items()):
         ctx.notes.append(f'model fidelity: {item}: {label} differs from the implementation in {k} cases '
                          f'(forward semantics changed? adjointness is decided by the dot-product tests and the relative model)')
